@@ -278,7 +278,7 @@ pub fn generate(rng: &mut Rng, o: &GenOpts) -> Gen {
                 if rng.chance(1, 3) {
                     let w = sp.bits();
                     let spe = Expression::Scalar(sp.clone());
-                    match rng.below(12) {
+                    match rng.below(13) {
                         0..=3 => block.assign(sp.clone(), Expression::Sub(Box::new(spe), Box::new(cst(rng.below(9) * 4, w)))),
                         4..=6 => block.assign(sp.clone(), Expression::Add(Box::new(spe), Box::new(cst(rng.below(9) * 4, w)))),
                         7 => block.assign(sp.clone(), Expression::Add(Box::new(cst(rng.u64() | 0x8000_0000_0000_0000, w)), Box::new(spe))),
@@ -305,6 +305,14 @@ pub fn generate(rng: &mut Rng, o: &GenOpts) -> Gen {
                                 block.assign((*s).clone(), spe);
                             } else {
                                 block.nop();
+                            }
+                        }
+                        11 => {
+                            // non-affine updates: alignment (and sp, -16), constants, scaling
+                            match rng.below(4) {
+                                0 | 1 => block.assign(sp.clone(), Expression::And(Box::new(spe), Box::new(cst(!0xfu64, w)))),
+                                2 => block.assign(sp.clone(), cst(0x7000 + rng.below(16) * 8, w)),
+                                _ => block.assign(sp.clone(), Expression::Add(Box::new(spe.clone()), Box::new(spe))),
                             }
                         }
                         _ => {
